@@ -31,8 +31,8 @@ P = {
          "KeyExpList / MapList / SetList give the reference answers, neighbour steps past either end give the empty sentinel, and the min-expiration shortcut never shows an expired or hides a live entry."),
  "C14": ("complete domain tables + random domains, black-box bucket identification vs reference layout", "3.C14",
          "new() is Some exactly for >16 points; point values co-locate exactly as the reference 32-bucket power-of-two layout says, at both sides of every bucket edge; storage backs every reachable place."),
- "C15": ("complete enumeration of the 528 x 528 finite space", "3.C15",
-         "All ordered pairs of bucket ranges over the 32-point domain: stored-at places meet visited places iff the ranges overlap; places tile the range, <=8 copies, one mask."),
+ "C15": ("complete enumeration of the 528 x 528 finite space (on the 32-point domain and on seven 32-bucket domains of other bucket widths) + generated insert sequences", "3.C15",
+         "All ordered pairs of bucket ranges: stored-at places meet visited places iff the ranges overlap; places tile the range, <=8 copies - on the 32-point domain and on 32-bucket domains with up to 2^57 points per bucket."),
  "C16": ("invariant checking on generated histories via copy-count hook", "3.C16",
          "After every fully consumed query no expired copy remains in any scanned list; after whole-domain queries none remains anywhere and copies <= 8 x unexpired values."),
  "C17": ("stateful PBT with held handles re-checked after every insertion + state closure x every insertable key", "3.C17",
@@ -56,9 +56,9 @@ def main():
             "thorough_cmd": "./check %s --tier thorough" % pid,
             "evidence_file": "/verif/evidence/%s.json" % pid,
             "replay_cmd_template": "./check %s --replay {path}" % pid,
-            "engine": "itree-verif harness (proptest 1.11 hand-driven + bounded-exhaustive enumerator), sharded by ./check",
+            "engine": "itree-verif harness (proptest 1.11 hand-driven + bounded-exhaustive enumerator + fixed tables), sharded by ./check; two builds of the worker: checked (debug assertions, overflow checks) and optimised without them",
             "level_claimed": {"category": "fault_enumeration" if pid == "C18" else "exploration", "text": text + " Held on everything explored; generated-input search never establishes absence.", "design_ref": "DESIGN.md section " + ref},
-            "level_note": "Trusted base: the reference models and validity predicates in /verif/harness/src (written from the property text), the read-only snapshot hooks (feature verif-hooks), rustc's debug-assertion / unsafe-precondition checks as crash oracle. Input domain = in-contract histories by construction (model-directed interpreters).",
+            "level_note": "Trusted base: the reference models and validity predicates in /verif/harness/src (written from the property text), the read-only snapshot hooks (feature verif-hooks), rustc's debug-assertion / unsafe-precondition checks as crash oracle (a quarter of every job table is also run by a worker built without debug assertions, as a user's release build would be). Input domain = in-contract histories by construction (model-directed interpreters).",
             "technique": tech,
         })
     m = {
